@@ -18,7 +18,7 @@ ID = "C01"
 LEVEL = "exploration"
 RULE = (
     "Hypothesis draws strictly convex problems (box QP with condition number <= 1e4, QP+quartic, QP+softplus; n=1..12), boxes of every kind (finite, one-sided, infinite, degenerate), feasible starts "
-    "on faces / vertices / interior, maxcor 1..10, gtol in {1e-3,1e-5,1e-6,1e-8}, ftol=0, maxiter=1500, maxfun=6000 (re-run once with 22500/90000 if the run ends on a budget limit), exact gradient. In thorough additionally ALL start placements {lower, interior, upper}^n "
+    "on faces / vertices / interior, maxcor 1..10, gtol in {1e-3,1e-5,1e-6,1e-8} (a quarter of the problems are posed in other units -- x scaled by 10^-6..6, f by 10^-8..8 -- with gtol relative to the projected gradient at the start), ftol=0, maxiter=1500, maxfun=6000 (re-run once with 22500/90000 if the run ends on a budget limit), exact gradient. In thorough additionally ALL start placements {lower, interior, upper}^n "
     "for n<=4 on drawn problems. The harness recomputes g at the returned x and requires pg <= max(10*gtol, 10*sqrt(delta_f*L)) whatever the message. non-trivial = some variable is on a bound at "
     "the start with the gradient pushing outward, or >=1 bound is active at the returned point after >=1 iteration; distinct = distinct problem spec"
 )
@@ -74,15 +74,36 @@ def run_with_ample_budget(prob, maxcor, gtol, stats=None):
     return tr
 
 
+def resolve_gtol(prob, spec):
+    """In other units the tolerance is given relative to the projected gradient at the start (an absolute
+    1e-5 means nothing when g is measured in units of 1e+8 or 1e-8)."""
+    if "units" not in spec["problem"]:
+        return spec["gtol"]
+    x0 = np.clip(prob.x0, prob.lb, prob.ub)
+    pg0 = prob.pg(x0, prob.obj.g(x0))
+    return spec["gtol"] * pg0 if pg0 > 0 else spec["gtol"]
+
+
 def check(spec, stats=None):
     prob = build(spec["problem"])
-    tr = run_with_ample_budget(prob, spec["maxcor"], spec["gtol"], stats)
-    judge(prob, tr, spec["gtol"], spec, stats)
+    gtol = resolve_gtol(prob, spec)
+    tr = run_with_ample_budget(prob, spec["maxcor"], gtol, stats)
+    judge(prob, tr, gtol, spec, stats, extra_labels=(("units=other",) if "units" in spec["problem"] else ()))
 
 
 @st.composite
 def strategy(draw):
-    p = draw(problem_spec(families=CONVEX_FAMILIES, n_max=12, kappa_max_exp=4.0))
+    p = draw(problem_spec(families=CONVEX_FAMILIES, n_max=12, kappa_max_exp=4.0, units=True))
+    if "units" in p:
+        # The curvature rule that C10 states (a pair is stored only if s.y > eps*y.y, i.e. curvature < 1/eps = 4.5e15)
+        # makes every pair unstorable once the curvature *in the user's units* exceeds 1/eps: the solver is then
+        # steepest descent with a unit initial matrix and its line search gives up (observation in DESIGN 11.8).
+        # That regime is outside this property's families; units are kept to curvature scales 1e-8 .. 1e8.
+        import math
+
+        lx, lf = math.log10(p["units"]["xs"]), math.log10(p["units"]["fs"])
+        lf = min(max(lf, 2 * lx - 8), 2 * lx + 8)
+        p["units"]["fs"] = 10.0 ** round(lf)
     return {"problem": p, "maxcor": draw(st.integers(1, 10)), "gtol": draw(st.sampled_from([1e-3, 1e-5, 1e-6, 1e-8]))}
 
 
